@@ -331,6 +331,11 @@ theorem stopOut_final (s : Stack) (a : Nat) (prev : Option Resp) (hp : ∀ r, pr
         | some e => simp
         | none => simpa using h2
 
+theorem applyHook_same (r : Resp) (h : HookAct) :
+    (applyHook r h).http = r.http ∧ (applyHook r h).slots = r.slots ∧ (applyHook r h).tag = r.tag ∧
+    (applyHook r h).bodyCached = r.bodyCached ∧ (applyHook r h).bodyOf = r.bodyOf := by
+  cases h <;> simp [applyHook]
+
 theorem doLoop_final (s : Stack) :
     ∀ fuel a prev, (∀ r, prev = some r → r.slots = {}) →
       ∀ r, (doLoop Fixes.all s fuel a prev).resp = some r → Final s r := by
@@ -354,7 +359,9 @@ theorem doLoop_final (s : Stack) :
               simp only [waitOut, Option.some.injEq] at hr
               subst hr
               rcases attempt_agrees s a prev with h | ⟨_, _, h3⟩
-              · left; exact (h r0 hr0).of_eq rfl rfl
+              · left
+                obtain ⟨k1, k2, _⟩ := applyHook_same r0 (s.retryHookAt a)
+                exact (h r0 hr0).of_eq k1 k2
               · exact absurd h3 hret
             · exact ih _ _ (by intro r hr; cases hr; rfl)
         · exact stopOut_final s a prev hp
